@@ -8,9 +8,13 @@ Quantifier.  `Ty` ranges over all finite type trees (struct or not, matching or 
 mismatches, pointer-vs-value, multi-level pointers, unexported and embedded fields, every element
 type); values over everything `wt` accepts (what Go's type system admits); options over every list of
 `IgnoreFields`/`ConvertField` items, given as defaults or per call.  Not in the family: recursive
-type declarations (`type N struct{ Next *N }` is not a finite tree; on the real code
-`NewReflectCopier[N, N]` overflows the stack — reported as a finding, not modelled), and nil `*Src` /
-`*Dst` arguments of the call itself (`c20_copyTo_nil_dst_panics` records what happens).
+type declarations (`type N struct{ Next *N }` is not a finite tree; since commit badc2e4
+`NewReflectCopier[N, N]` returns an error through its `visiting` set of (src, dst) type pairs — that guard
+is not modelled: on finite trees the source type's `Ty.depth` strictly decreases along the recursion, so a
+pair can never recur; recursive declarations are probed dynamically only), cyclic *values* of such types
+(`n.Next = n`: the pure `CopyTo(n, &N{})` recurses until a fatal stack overflow — review finding, values are
+finite trees here), and nil `*Src` / `*Dst` arguments of the call itself (`c20_copyTo_nil_dst_panics`
+records what happens).
 -/
 import Ekit.Lemmas.CopierSpecLoop
 import Ekit.Lemmas.CopierAgreeLoop
